@@ -1,7 +1,7 @@
-SPECIFICATION Spec
+SPECIFICATION SpecCases
 CONSTANTS
   Geoms <- GeomsTiny
-  Amps <- Amps2
+  Amps <- Amps4
   AmpsL <- Amps2
   Pin = 2
   Mutant = "none"
